@@ -576,7 +576,7 @@ func runC14Case(c *Ctx, idx int) *CaseResult {
 func init() {
 	register(&Check{
 		ID: "C14", Level: "fault_enumeration",
-		Rule: "dynamic part: per program a fault-free run counts the N harness-method calls, then for every k<=N (all up to 60 quick / 200 thorough, a seeded sample beyond) the k-th call fails as {panic} + the flavour of its site {zero used as % divisor, nil pointer whose field is read, out-of-range index, wrong-kind value}, alternating ReturnErrOnFailedRuleEvaluation; fault sites sit in conditions (one shared by two rules) and in the 1st/2nd/3rd action statement. static part (every third case): hostile states (nil nested pointer, nil slice element, short slice, missing map key / JSON member / fact, JSON kind mismatch, zero divisor) with reference-predicted failures, both flag settings. non-trivial = distinct (program, k, flavour) whose fault actually fired / distinct (program, cycle, rule) with a reference-predicted failure; deterministic part: 15 operators x 9 left x 13 right operands of mismatching families incl. nil pointer (the reference decides which applications fail), each under a negation, compared with false, left of ||, bare, as the right-hand side of an action and as a compound assignment, both flag settings, with a witness rule that must fire undisturbed",
+		Rule: "dynamic part: per program a fault-free run counts the N harness-method calls, then for every k<=N (all up to 60 quick / 200 thorough, a seeded sample beyond) the k-th call fails as {panic} + the flavour of its site {zero used as % divisor, nil pointer whose field is read, out-of-range index, wrong-kind value}, alternating ReturnErrOnFailedRuleEvaluation; fault sites sit in conditions (one shared by two rules) and in the 1st/2nd/3rd action statement. static part (every third case): hostile states (nil nested pointer, nil slice element, short slice, missing map key / JSON member / fact, JSON kind mismatch, zero divisor) with reference-predicted failures, both flag settings. non-trivial = distinct (program, k, flavour) whose fault actually fired / distinct (program, cycle, rule) with a reference-predicted failure; deterministic part: 15 operators x 9 left x 13 right operands of mismatching families incl. nil pointer (the reference decides which applications fail), each under a negation, compared with false, left of ||, bare, as the right-hand side of an action and as a compound assignment, both flag settings, with a witness rule that must fire undisturbed; the table ends with applications that fail for other reasons: patterns that do not compile, string-keyed maps read with an integer, integer-keyed map and slice read with a string",
 		Assume: []string{"a fault fired inside a condition makes that evaluation fail (no operator swallows errors)", "reference interpreter"},
 		Cases:  func(t string) int { return tierN(1200, 30000)(t) + len(c14KindCases) },
 		Run:    runC14Case,
